@@ -108,16 +108,17 @@ def record_comp(ctx, fmt, profiles):
                 big = "pat" in c       # input given by its generator (pattern repeated to n bytes)
                 if "outcome" in r:
                     if big:
-                        ev = {"kind": "bigcomp", "fmt": fmt, "tag": c["tag"], "pat": c["pat"], "n": c["n"], "res": synth(r),
+                        ev = {"kind": "bigcomp", "fmt": fmt, "tag": c["tag"], "head": c["head"], "pat": c["pat"], "tail": c["tail"],
+                              "n": c["n"], "res": synth(r),
                               "rt": {"kind": "none", "same": False, "len": 0, "msg": ""}}
                     else:
                         ev = {"kind": "comp", "fmt": fmt, "tag": c["tag"], "input": c["input"], "res": synth(r),
                               "rt": {"kind": "none", "out": [], "alloc": False, "msg": ""}}
                 else:
-                    ev = {k: r[k] for k in (("kind", "fmt", "tag", "pat", "n", "res", "rt") if big else
+                    ev = {k: r[k] for k in (("kind", "fmt", "tag", "head", "pat", "tail", "n", "res", "rt") if big else
                                             ("kind", "fmt", "tag", "input", "res", "rt"))}
                     worst_alloc[0] = max(worst_alloc[0], r.get("max_alloc", 0))
-                key = json.dumps([c.get("input"), c.get("pat"), c.get("n"), ev["res"]["kind"], ev["res"]["out"], ev["rt"]["kind"],
+                key = json.dumps([c.get("input"), c.get("head"), c.get("pat"), c.get("tail"), c.get("n"), ev["res"]["kind"], ev["res"]["out"], ev["rt"]["kind"],
                                   ev["rt"].get("out"), ev["rt"].get("same")])
                 if key in seen:
                     if (p, via) not in zip(seen[key]["profiles"], seen[key]["via"]):   # the same input may be listed twice
@@ -203,7 +204,7 @@ def replay_comp(ctx, rp):
     cpath, opath = ctx.path("c.ndjson"), ctx.path("o.ndjson")
     big = ev["kind"] == "bigcomp"
     case = {"fmt": ev["fmt"], "tag": ev["tag"]}
-    case.update({"pat": ev["pat"], "n": ev["n"]} if big else {"input": ev["input"]})
+    case.update({"head": ev["head"], "pat": ev["pat"], "tail": ev["tail"], "n": ev["n"]} if big else {"input": ev["input"]})
     vlib.write_ndjson(cpath, [case])
     res = ctx.isolated(b, ["comp", cpath, opath], 1, opath, per_case_timeout=180.0,
                        env={"VERIF_LZ_VIA": ev.get("via", ["direct"])[0]})
@@ -211,7 +212,7 @@ def replay_comp(ctx, rp):
     if "outcome" in r:
         e2 = dict(ev, res=synth(r), rt={"kind": "none", "out": [], "same": False, "alloc": False, "msg": ""})
     else:
-        e2 = {k: r[k] for k in (("kind", "fmt", "tag", "pat", "n", "res", "rt") if big else
+        e2 = {k: r[k] for k in (("kind", "fmt", "tag", "head", "pat", "tail", "n", "res", "rt") if big else
                                 ("kind", "fmt", "tag", "input", "res", "rt"))}
     print("result now: res=%s %s rt=%s stream=%s" % (e2["res"]["kind"], e2["res"]["msg"], e2["rt"]["kind"], e2["res"]["out"][:64]))
     bad, _ = trace_check(ctx, [e2], "replay")
@@ -227,7 +228,8 @@ def run(ctx):
                 "incompressible, text) compressed by the real LZ10 compressor through both public entry points (LZ10CompressionFormat and "
                 "CompressionFormat::LZ10); the stream is decoded by the TLA+ decoder "
                 "machine at the real constants; plus size-boundary inputs given by generator (run / period 3, 17, 4096 repeated to "
-                "0xFFFF..0x10001, 65810, 65811, 70000, 0x20000, 140000 and 16 MiB-2, 16 MiB-1 bytes) judged by the validating "
+                "0xFFFF..0x10001, 65810, 65811, 70000, 0x20000, 140000 and 16 MiB-2, 16 MiB-1 bytes; compressible body + "
+                "incompressible tail of 16/300 bytes and the mirrored shape at 70000 and at the 24-bit boundary) judged by the validating "
                 "decoder; plus inputs that look like streams: every valid stream of the spec generator's small family, every "
                 "header-like start (type 0x10/0x11/0x13/0x00, length 0..5) x every tail over {0,a} up to 5/7 bytes, and "
                 "compress(x) / compress(compress(x)) chains; all judged by the same "
